@@ -205,12 +205,17 @@ class Tr:
         for i, s in enumerate(body):
             if isinstance(s, ast.Expr) and isinstance(s.value, ast.Constant):
                 continue
-            if isinstance(s, ast.Assign) and len(s.targets) == 1 and isinstance(s.targets[0], ast.Name):
-                try:
-                    env[s.targets[0].id] = self.expr(s.value, env, k)
-                except Unsupported as e:
-                    env[s.targets[0].id] = ("var", f"loc:{k}.{fname}.{s.targets[0].id}")
-                    self.notes.append(f"{k}.{fname}: {s.targets[0].id} opaque ({e})")
+            if isinstance(s, ast.Assign) and all(isinstance(t, ast.Name) for t in s.targets):
+                for tg in s.targets:
+                    try:
+                        env[tg.id] = self.expr(s.value, env, k)
+                    except Unsupported as e:
+                        env[tg.id] = ("var", tg.id) if getattr(self, "plain_locals", False) else ("var", f"loc:{k}.{fname}.{tg.id}")
+                        self.notes.append(f"{k}.{fname}: {tg.id} opaque ({e})")
+            elif isinstance(s, ast.Assign) and len(s.targets) == 1 and isinstance(s.targets[0], ast.Tuple) and not isinstance(s.value, ast.Tuple) \
+                    and getattr(self, "plain_locals", False):
+                for tg in s.targets[0].elts:
+                    env[tg.id] = ("var", tg.id)
             elif isinstance(s, ast.Assign) and len(s.targets) == 1 and isinstance(s.targets[0], ast.Tuple) and isinstance(s.value, ast.Tuple):
                 for t, v in zip(s.targets[0].elts, s.value.elts):
                     env[t.id] = self.expr(v, env, k)
@@ -360,6 +365,8 @@ class Tr:
                 if base[0] == "var":
                     return ("var", base[1] + "." + e.attr)
             raise Unsupported(f"attr {src}")
+        if isinstance(e, ast.Subscript) and isinstance(e.slice, ast.Name) and e.slice.id == "mask":
+            return self.expr(e.value, env, k)        # boolean-mask selection: the same element of the array
         if isinstance(e, ast.Subscript):
             src = ast.unparse(e.value)
             if src == "self.params":
@@ -714,6 +721,36 @@ def _ctor_differs(mod, c, owner):
     return True
 
 
+def module_functions():
+    """closed-form locals of module-level functions: (namespace, file, function, local whose final value is wanted)"""
+    items, meta = [], {}
+    for rel, fname, local in [("density_field/halofit.py", "halofit", "pnl")]:
+        mod = Module(rel)
+        fn = mod.funcs[fname]
+        body = []
+        for st in fn.body:
+            body.append(st)
+            if isinstance(st, ast.Assign) and any(isinstance(t, ast.Name) and t.id == local for t in st.targets):
+                break
+        body.append(ast.Return(value=ast.Name(id=local, ctx=ast.Load())))
+        # a pseudo-class so that the executor has an MRO
+        cls = next(iter(mod.classes), None)
+        tr = Tr(mod, cls, set(), flow=False) if cls else None
+        if tr is None:
+            mod.classes["_M"] = ast.ClassDef(name="_M", bases=[], keywords=[], body=[], decorator_list=[])
+            tr = Tr(mod, "_M", set(), flow=False)
+        tr.plain_locals = True
+        env = {a.arg: ("var", a.arg) for a in fn.args.args}
+        name = f"{fname}_{local}"
+        try:
+            t = lower(tr.block(body, env, fname, fname))
+            items.append((name, t))
+            meta[name] = {"tree": t, "notes": tr.notes}
+        except Unsupported as e:
+            meta[name] = {"unsupported": str(e)}
+    return items, meta
+
+
 def main():
     verif = os.path.dirname(os.path.dirname(os.path.abspath(__file__)))
     gen = os.path.join(verif, "lean", "HmfVerif", "Gen")
@@ -725,6 +762,10 @@ def main():
     emit_module(os.path.join(gen, "ExprFlow.lean"), "Flow", fitems)
     out["flow"] = fmeta
     print("pyexpr: flow", len(fitems), "unsupported", {k: v["unsupported"] for k, v in fmeta.items() if "unsupported" in v})
+    mitems, mmeta = module_functions()
+    emit_module(os.path.join(gen, "ExprHalofit.lean"), "Halofit", mitems)
+    out["halofit"] = mmeta
+    print("pyexpr: halofit", len(mitems), {k: v.get("unsupported") for k, v in mmeta.items() if "unsupported" in v})
     citems, cmeta = components()
     for ns, items in citems.items():
         emit_module(os.path.join(gen, f"Expr{ns}.lean"), ns, items)
